@@ -317,3 +317,66 @@ func cmpNorm(v ssa.Value, pol bool) (l, op, r string, ok bool) {
 	}
 	return "", "", "", false
 }
+
+// cmpNormV is cmpNorm on SSA values: returns (L, op, R) with op in {"<","<=","==","!="}.
+func cmpNormV(v ssa.Value, pol bool) (l ssa.Value, op string, r ssa.Value, ok bool) {
+	for {
+		if u, isU := v.(*ssa.UnOp); isU && u.Op == token.NOT {
+			v, pol = u.X, !pol
+			continue
+		}
+		break
+	}
+	bo, isB := v.(*ssa.BinOp)
+	if !isB {
+		return nil, "", nil, false
+	}
+	o := bo.Op
+	if !pol {
+		switch o {
+		case token.LSS:
+			o = token.GEQ
+		case token.LEQ:
+			o = token.GTR
+		case token.GTR:
+			o = token.LEQ
+		case token.GEQ:
+			o = token.LSS
+		case token.EQL:
+			o = token.NEQ
+		case token.NEQ:
+			o = token.EQL
+		default:
+			return nil, "", nil, false
+		}
+	}
+	switch o {
+	case token.GTR:
+		return bo.Y, "<", bo.X, true
+	case token.GEQ:
+		return bo.Y, "<=", bo.X, true
+	case token.LSS:
+		return bo.X, "<", bo.Y, true
+	case token.LEQ:
+		return bo.X, "<=", bo.Y, true
+	case token.EQL:
+		return bo.X, "==", bo.Y, true
+	case token.NEQ:
+		return bo.X, "!=", bo.Y, true
+	}
+	return nil, "", nil, false
+}
+
+// stripConv removes integer conversions.
+func stripConv(v ssa.Value) ssa.Value {
+	for {
+		switch x := v.(type) {
+		case *ssa.Convert:
+			v = x.X
+		case *ssa.ChangeType:
+			v = x.X
+		default:
+			return v
+		}
+	}
+}
